@@ -214,6 +214,39 @@ pub fn visit(ctx: &BoardCtx, p: &Pos) {
     if ctx.states.load(std::sync::atomic::Ordering::Relaxed) % 16 == 0 {
         let _ = guarded(|| foreign_activity());
     }
+    // ... and, where the side to move still has a castling right (and on every 64th other state),
+    // right after the same questions were asked about its SAME-OCCUPANCY TWINS: the enemy king swapped
+    // with one of the mover's men. Whatever a function remembers about "the last position" under a key
+    // made of occupancies and some of the piece sets is then wrong for the judged one.
+    if matches!(ctx.prop, Prop::C01 | Prop::C05) {
+        let rights = if p.stm == WHITE { p.castle & (CASTLE_WK | CASTLE_WQ) } else { p.castle & (CASTLE_BK | CASTLE_BQ) };
+        if rights != 0 || ctx.states.load(std::sync::atomic::Ordering::Relaxed) % 64 == 1 {
+            if let Some(ek) = (0..64u8).find(|&sq| p.board[sq as usize] == pc(1 - p.stm, KING)) {
+                for sq in 0..64u8 {
+                    let x = p.board[sq as usize];
+                    if x == EMPTY || pc_color(x) != p.stm || pc_kind(x) == KING || (pc_kind(x) == PAWN && (row_of(ek) == 0 || row_of(ek) == 7)) {
+                        continue;
+                    }
+                    let mut twin = p.clone();
+                    twin.board[ek as usize] = x;
+                    twin.board[sq as usize] = pc(1 - p.stm, KING);
+                    // (rights that depend on the swapped man's square go with it)
+                    if pc_kind(x) == ROOK {
+                        twin.castle = 0;
+                    }
+                    twin.ep = NO_EP;
+                    if twin.is_legal_position() {
+                        let _ = guarded(|| {
+                            if let Ok(mut tb) = board_from_pos(&twin) {
+                                let _ = tb.generate_legal_moves();
+                                let _ = tb.is_current_in_check();
+                            }
+                        });
+                    }
+                }
+            }
+        }
+    }
     let r = guarded(|| match ctx.prop {
         Prop::C01 => c01(ctx, p, &fen, &mut b),
         Prop::C02 => c02(ctx, p, &fen, &mut b),
